@@ -410,6 +410,16 @@ def measured(ctx):
         z.writestr("META-INF/manifest.xml", '<?xml version="1.0"?><manifest:manifest xmlns:manifest='
                    '"urn:oasis:names:tc:opendocument:xmlns:manifest:1.0"/>')
     amp.append(("odt-text-s-count-amplification", "x.odt", odt.getvalue(), f"ODT: <text:s text:c={N * 20}>"))
+    # 7z holding ONE oversize, highly compressible member (LZMA): the member is above the per-member limit, so it
+    # must not be decompressed at all; extractall() inflates it in memory and writes it to disk
+    try:
+        from props import c10_sevenz
+        big = ctx.n(40, 120) * 1024 * 1024
+        arch, _, _ = c10_sevenz.pack([("big.txt", "data", b"0" * big), ("small.txt", "data", b"hello")], [1, 1], "lzma")
+        amp.append(("7z-oversize-member-decompressed-and-written", "x.7z", arch,
+                    f"7z: a {big >> 20} MiB member (above the 10 MiB per-member limit) packed with LZMA into {len(arch)} bytes"))
+    except Exception as e:  # noqa
+        ctx.count("measured:7z-writer-unavailable:" + type(e).__name__)
     meas = {}
     with tempfile.TemporaryDirectory(dir="/var/tmp") as td:
         wp = os.path.join(td, "worker.py")
